@@ -478,6 +478,67 @@ def selfTable : List (Owner × String) :=
      else [(t.owner, t.cls ++ ":-:-:-")]) ++
     (if t.hasProto then [(t.protoOwner, if t.name = "Function" then "Function::closure:-" else t.protoCls ++ ":-:-:-")] else []))
 
+/-! ### internal representation: `class` field, `objectClass` (the table of internal methods, object_class.go:40-170) and the Go
+    type of `value`, as definition.tmpl / prototype.tmpl / function.tmpl emit them -/
+
+/-- the Go variables of global.go:8-42 named by yaml `prototype.value` -/
+def goTypeOf : String → String
+  | "prototypeValueFunction" => "nativeFunctionObject"
+  | "prototypeValueString" => "stringASCII"
+  | "prototypeValueBoolean" | "prototypeValueNumber" => "Value"
+  | "prototypeValueDate" => "dateObject"
+  | "prototypeValueRegExp" => "regExpObject"
+  | _ => "<nil>"                               -- prototypeValueObject = interface{}(nil), `value: nil`
+
+def fnKind : String := "Function:Object:nativeFunctionObject"
+
+def selfKind (o : Owner) : String :=
+  match types.find? (fun t => t.owner = o), types.find? (fun t => t.hasProto && t.protoOwner = o) with
+  | some t, _ => if o = .global then "environment:Object:<nil>"          -- stash.go:37
+                 else if t.cls = "" then fnKind else t.cls ++ ":Object:<nil>"
+  | none, some t => t.protoCls ++ ":" ++ t.protoObjectClass ++ ":" ++ goTypeOf t.protoValue
+  | none, none => "?"
+
+def Decl.kind? : Decl → Option (String × String)
+  | .fn n _ | .fnCall n _ _ => some (n, fnKind)
+  | .obj n _ t => some (n, selfKind t)
+  | _ => none
+
+def kindsOf (o : Owner) (ds : List Decl) : Facts := ("@self", selfKind o) :: ds.filterMap Decl.kind?
+
+def kindTable : List (Owner × Facts) :=
+  types.flatMap (fun t =>
+    [(t.owner, kindsOf t.owner t.props ++ (if t.owner = .global then [("console", "Object:Object:<nil>")] else []))] ++
+    (if t.hasProto then [(t.protoOwner, kindsOf t.protoOwner t.protoProps)] else []))
+
+/-- which table of internal methods an owner dispatches through -/
+def objectClassOf (o : Owner) : String :=
+  match types.find? (fun t => t.hasProto && t.protoOwner = o) with
+  | some t => t.protoObjectClass
+  | none => "Object"
+
+/-- object_class.go:65-79: classArray differs from classObject in defineOwnProperty = arrayDefineOwnProperty (type_array.go),
+    which keeps `length` in step with index writes, rejects invalid lengths with RangeError and deletes on shrink -/
+def aspect (o : Owner) (a : String) : Option String :=
+  if a = "call" then
+    some (match types.find? (fun t => t.owner = o && t.cls = "" && o != .global) with
+          | some _ => Spec.callResult o        -- builtin<Name> called as a function (builtin_*.go), one distinguishing probe each
+          | none => if o = .FunctionPrototype then "returns:undefined"      -- global.go:10-14
+                    else "notcallable")
+  else if Spec.universalAspects.contains a then
+    some (if objectClassOf o = "Array" then Spec.arrayAspect a else Spec.ordinaryAspect a)
+  else if o = .RegExpPrototype ∧ a = "retest" then some "throws:TypeError"  -- type_regexp.go:87 regularExpression == nil
+  else if o = .RegExpPrototype ∧ a = "restr" then some "/undefined/"        -- builtin_regexp.go toString reads the missing `source`
+  else Spec.assoc a (Spec.kindAspects o)
+
+def devKind (o : Owner) (a : String) : String :=
+  if o = .RegExpPrototype ∧ (a = "retest" ∨ a = "restr") then "regexp_proto_props" else "-"
+
+/-- inline.go creates one function object per yaml item, so toGMTString and toUTCString are two objects -/
+def behaviours : Facts := Spec.behaviours.map (fun (k, v) => if k = "gmt_is_utc" then (k, "false") else (k, v))
+
+def devBeh (name : String) : String := if name = "gmt_is_utc" then "gmt_not_utc" else "-"
+
 /-! ### definition.tmpl / prototype.tmpl: the object-level facts -/
 def ownerFacts : List (Owner × Facts) :=
   types.flatMap (fun t =>
